@@ -38,6 +38,9 @@ R09.14 an aggregate over the slots is rendered into the command behind the
        loop which fills it, not appended in every iteration
 R09.15 a value read with .get() and derived when unset is derived when the
        option is absent (the default does not pre-empt the derivation)
+R09.16 path-wise form of R09.2: within one configuration of a launcher the
+       node identity reaches the command (or its file) on every path of
+       get_launch_cmds if it does on some, unless the task has no placement
 """
 
 import ast
@@ -4689,6 +4692,675 @@ def r09_15(prog, rep, classes, rid='R09.15', minimum=13):
 
 
 # ------------------------------------------------------------------------------
+# R09.16  the placement reaches the command on EVERY path (of a mode)
+#
+# R09.2 decides may-depend; this rule walks the paths of get_launch_cmds with
+# a small abstract state (decided conditions, truth of a few locals, which
+# locals carry a node name / index on this path) and compares the paths which
+# end with the node identity in the command (or in a file written for it) with
+# those which end without: within one configuration of the launcher (the
+# conditions which read only attributes of the launcher and constants) the
+# former must not exist next to the latter unless the task has no placement.
+#
+import copy as _copy
+from ..flow import Exploration
+
+_BUILTIN_SEQ = {'list', 'set', 'sorted', 'tuple', 'frozenset', 'reversed',
+                'len', 'iter', 'enumerate'}
+_EXITS = (ast.Return, ast.Raise, ast.Break, ast.Continue)
+_SLOTS = ('@slots',)
+
+
+class _LenPrune(ast.NodeTransformer):
+    """len(x) does not name what x names"""
+    def visit_Call(self, n):
+        if isinstance(n.func, ast.Name) and n.func.id == 'len':
+            return ast.copy_location(ast.Constant(0), n)
+        return self.generic_visit(n)
+
+
+def _pruned(node):
+    return ast.fix_missing_locations(_LenPrune().visit(_copy.deepcopy(node)))
+
+
+def _shell(s):
+    """the part of a compound statement its cfg node stands for"""
+    if isinstance(s, (ast.For, ast.AsyncFor)):
+        return ast.For(target=s.target, iter=s.iter, body=[ast.Pass()],
+                       orelse=[], lineno=s.lineno, col_offset=0)
+    if isinstance(s, (ast.With, ast.AsyncWith)):
+        return ast.With(items=s.items, body=[ast.Pass()], lineno=s.lineno,
+                        col_offset=0)
+    return s
+
+
+class PathPlacement:
+    """path-wise walk of one get_launch_cmds (see above)"""
+
+    MAX_STATES = 60000
+
+    def __init__(self, prog, K, f):
+        self.prog, self.K, self.f = prog, K, f
+        self.G = graph(prog, K, ['get_launch_cmds'])
+        self.w = f.where
+        self.g = cfg_of(f)
+        self.locals = set(f.params)
+        for n in walk(f.node, nested=True):
+            if isinstance(n, ast.Name) and isinstance(n.ctx, (ast.Store,
+                                                              ast.Del)):
+                self.locals.add(n.id)
+        self._ret_memo, self._mark_memo, self._file_memo = {}, {}, {}
+        self.key_names, self.key_text, self.key_config = {}, {}, {}
+        self._callees = {}
+        for ff, c, gg in self.G.calls:
+            if ff.where == self.w:
+                self._callees[id(c)] = gg
+        self._file_funcs = self._file_taint_funcs()
+        # lexical context of every statement / test
+        self.encl = {}            # id(stmt) -> [test exprs / for iters]
+        self.owner = {}           # id(sub expr of an if/while test) -> If
+        self._lex(f.node, [])
+        self.info = {}            # cfg node id -> statement facts
+        for n in self.g.nodes:
+            if n.kind in ('stmt', 'for', 'with') and n.ast is not None:
+                self.info[n.id] = self._facts(n)
+        self._relevance()
+
+    # -- static facts -----------------------------------------------------------
+    def _lex(self, node, stack):
+        for c in ast.iter_child_nodes(node):
+            st = stack
+            if isinstance(node, (ast.If, ast.While)):
+                if c is node.test:
+                    for m in walk(c, nested=True):
+                        self.owner[id(m)] = node
+                else:
+                    st = stack + [node.test]
+            elif isinstance(node, (ast.For, ast.AsyncFor)) and \
+                    c is not node.iter and c is not node.target:
+                st = stack + [node.iter]
+            if isinstance(c, ast.stmt):
+                self.encl[id(c)] = list(st)
+            self._lex(c, st)
+
+    def _file_taint_funcs(self):
+        """functions of the graph which write something derived from a node
+        name / index into a file"""
+        out = set()
+        for (ww, l) in self.G.e.get(('FILE', ''), ()):
+            if ww and ww not in out and \
+                    self.G.marks(self.G.closure([(ww, l)]), ('place',)):
+                out.add(ww)
+        return out
+
+    def _callee_writes_file(self, g):
+        if g.where not in self._file_memo:
+            seen, todo = set(), [g.where]
+            while todo:
+                x = todo.pop()
+                if x in seen:
+                    continue
+                seen.add(x)
+                for ff, c, gg in self.G.calls:
+                    if ff.where == x:
+                        todo.append(gg.where)
+            self._file_memo[g.where] = bool(seen & self._file_funcs)
+        return self._file_memo[g.where]
+
+    def _facts(self, n):
+        s = n.ast
+        sh = _shell(s)
+        p = _pruned(sh)
+        d = PDeps(ast.Module(body=[p], type_ignores=[]), nested=True,
+                  implicit=False)
+        writes = {}                               # local -> reads
+        for t, rd in d.edges.items():
+            writes[t] = set(rd)
+        strong = set()
+        if isinstance(s, ast.Assign):
+            for t in s.targets:
+                for e in (t.elts if isinstance(t, (ast.Tuple, ast.List))
+                          else [t]):
+                    if isinstance(e, ast.Name):
+                        strong.add(e.id)
+        elif isinstance(s, ast.AnnAssign) and isinstance(s.target, ast.Name) \
+                and s.value is not None:
+            strong.add(s.target.id)
+        file_reads, helper_file = set(), False
+        calls = []
+        if isinstance(sh, ast.stmt):
+            src = _shell(s)
+            calls = list(calls_in(src, nested=True)) if not isinstance(
+                s, (ast.For, ast.AsyncFor, ast.With, ast.AsyncWith)) else \
+                [c for part in ([s.iter] if isinstance(s, (ast.For,
+                 ast.AsyncFor)) else [i.context_expr for i in s.items])
+                 for c in calls_in(part, nested=True)]
+        for c in calls:
+            nm = call_name(c)
+            if (isinstance(c.func, ast.Attribute) and
+                    c.func.attr in ('write', 'writelines')) or \
+                    nm in FILE_WRITERS:
+                pc = _pruned(c)
+                for a in list(pc.args) + [k.value for k in pc.keywords]:
+                    file_reads |= d.reads(a)
+            gg = self._callees.get(id(c))
+            if gg is not None and self._callee_writes_file(gg):
+                helper_file = True
+        ret_reads = None
+        if isinstance(s, ast.Return):
+            ret_reads = d.reads(p.value) if p.value is not None else set()
+        ctl = set()
+        for t in self.encl.get(id(s), ()):
+            ctl |= d.reads(_pruned(t))
+        return dict(writes=writes, strong=strong, file=file_reads,
+                    helper_file=helper_file, ret=ret_reads, ctl=ctl)
+
+    def _relevance(self):
+        """tests worth remembering: those around a statement which moves the
+        node identity (or ends the function), and those around the
+        definitions of what such tests read"""
+        ft = set()
+        changed = True
+        while changed:
+            changed = False
+            for nid, i in self.info.items():
+                for t, rd in i['writes'].items():
+                    if t not in ft and self._tainted(rd - {t}, ft):
+                        ft.add(t)
+                        changed = True
+        self.ft = ft
+        rel, names = [], set()
+        seen_stmt = set()
+        for n in self.g.nodes:                  # loops and asserts: always
+            if n.kind == 'for' or isinstance(n.ast, ast.Assert):
+                e = n.ast.iter if n.kind == 'for' else n.ast.test
+                for m in walk(e, nested=True):
+                    if isinstance(m, ast.Name):
+                        names.add(m.id)
+
+        def add_tests(stmt):
+            if id(stmt) in seen_stmt:
+                return
+            seen_stmt.add(id(stmt))
+            for t in self.encl.get(id(stmt), ()):
+                if not any(t is x for x in rel):
+                    rel.append(t)
+                    for m in walk(t, nested=True):
+                        if isinstance(m, ast.Name):
+                            names.add(m.id)
+
+        for nid, i in self.info.items():
+            s = self.g.nodes[nid].ast
+            moves = any(self._tainted(rd - {t}, ft)
+                        for t, rd in i['writes'].items())
+            kills = bool(i['strong'] & ft)
+            if moves or kills or i['file'] or i['helper_file'] or \
+                    i['ret'] is not None:
+                add_tests(s)
+        changed = True
+        while changed:
+            before = (len(rel), len(names))
+            for nid, i in self.info.items():
+                s = self.g.nodes[nid].ast
+                tg = set(i['writes']) | i['strong']
+                if tg & names:
+                    add_tests(s)
+                    v = getattr(s, 'value', None)
+                    if v is not None and len(list(walk(v, nested=True))) < 40:
+                        for m in walk(v, nested=True):
+                            if isinstance(m, ast.Name):
+                                names.add(m.id)
+            changed = (len(rel), len(names)) != before
+        self.rel_ids = set()
+        for t in rel:
+            for m in walk(t, nested=True):
+                self.rel_ids.add(id(m))
+        self.rel_names = names
+
+    # -- taint ------------------------------------------------------------------
+    def _mark(self, l):
+        if l not in self._mark_memo:
+            self._mark_memo[l] = bool(self.G.marks({(self.w, l)}, ('place',)))
+        return self._mark_memo[l]
+
+    def _ret(self, l):
+        if l not in self._ret_memo:
+            tg = self.G.e.get((self.w, l), ())
+            self._ret_memo[l] = bool(tg) and bool(self.G.marks(
+                self.G.closure(list(tg)), ('place',)))
+        return self._ret_memo[l]
+
+    def _tainted(self, reads, taint):
+        for l in reads:
+            if l in taint:
+                return True
+            if l.startswith('@place'):
+                if self._mark(l):
+                    return True
+            elif l.startswith('ret:') and self._ret(l):
+                return True
+        return False
+
+    # -- abstract truth ---------------------------------------------------------
+    def _is_config(self, e):
+        for m in walk(e, nested=True):
+            if isinstance(m, ast.Name) and m.id != 'self' and \
+                    m.id in self.locals:
+                return False
+        return True
+
+    def _key(self, key, exprs, text, extra_names=()):
+        if key not in self.key_names:
+            nm = set(extra_names)
+            cfgk = True
+            for e in exprs:
+                for m in walk(e, nested=True):
+                    if isinstance(m, ast.Name):
+                        nm.add(m.id)
+                cfgk = cfgk and self._is_config(e)
+            if extra_names:
+                cfgk = cfgk and not (set(extra_names) & self.locals)
+            self.key_names[key] = frozenset(nm)
+            self.key_text[key] = text
+            self.key_config[key] = cfgk and key != _SLOTS
+        return key
+
+    def _int(self, e):
+        if isinstance(e, ast.Constant):
+            v = e.value
+        elif isinstance(e, (ast.Name, ast.Attribute)) and not (
+                isinstance(e, ast.Name) and e.id in self.locals):
+            v = self.prog.fold(self.f.module, e, self.K)
+        else:
+            return None
+        if isinstance(v, int) and not isinstance(v, bool):
+            return v
+        return None
+
+    def _sym(self, e, vals):
+        """(text, names) of an operand; a local bound to len(x) / another
+        name reads as what it is bound to"""
+        if isinstance(e, ast.Name) and e.id in vals and vals[e.id][1]:
+            return vals[e.id][1], vals[e.id][2]
+        return unparse(e), frozenset(m.id for m in walk(e, nested=True)
+                                     if isinstance(m, ast.Name))
+
+    def _slots_len(self, e, vals, atoms):
+        if isinstance(e, ast.Call) and isinstance(e.func, ast.Name) and \
+                e.func.id == 'len' and len(e.args) == 1:
+            return self.truth(e.args[0], vals, atoms) == ('a', _SLOTS, True)
+        if isinstance(e, ast.Name) and e.id in vals and vals[e.id][1] and \
+                vals[e.id][1].startswith('len('):
+            return vals[e.id][0] == ('a', _SLOTS, True)
+        return False
+
+    def truth(self, e, vals, atoms):
+        """('c', bool) | ('a', key, polarity) | None"""
+        r = self._truth(e, vals)
+        if r is not None and r[0] == 'a' and r[1] in atoms:
+            return ('c', atoms[r[1]] == r[2])
+        return r
+
+    def _truth(self, e, vals):
+        if isinstance(e, ast.Constant):
+            return ('c', bool(e.value))
+        if isinstance(e, ast.Name):
+            if e.id in vals:
+                return vals[e.id][0]
+            if e.id in ('True', 'False', 'None'):
+                return ('c', e.id == 'True')
+            return ('a', self._key(('e', e.id), [e], e.id), True)
+        if isinstance(e, ast.UnaryOp) and isinstance(e.op, ast.Not):
+            r = self._truth(e.operand, vals)
+            if r is None:
+                return None
+            if r[0] == 'c':
+                return ('c', not r[1])
+            return ('a', r[1], not r[2])
+        if const_key(e) == 'slots':
+            return ('a', self._key(_SLOTS, [], "task['slots']"), True)
+        if isinstance(e, (ast.List, ast.Tuple, ast.Set)):
+            if any(isinstance(x, ast.Starred) for x in e.elts):
+                return None
+            return ('c', bool(e.elts))
+        if isinstance(e, ast.Dict):
+            return ('c', bool(e.keys))
+        if isinstance(e, (ast.ListComp, ast.SetComp, ast.GeneratorExp,
+                          ast.DictComp)):
+            if len(e.generators) == 1 and not e.generators[0].ifs:
+                if isinstance(e, ast.GeneratorExp):
+                    return None               # a generator object is true
+                return self._truth(self._seq(e.generators[0].iter), vals)
+            return None
+        if isinstance(e, ast.Call):
+            dn = dotted(e.func)
+            if dn in ('list', 'set', 'dict', 'tuple', 'frozenset', 'str') \
+                    and not e.args and not e.keywords:
+                return ('c', False)
+            if dn in ('itertools.groupby', 'groupby', 'enumerate',
+                      'collections.Counter', 'Counter') and e.args:
+                return self._truth(e.args[0], vals)   # empty iff x is
+            if dn in ('list', 'set', 'sorted', 'tuple', 'frozenset', 'len',
+                      'dict.fromkeys', 'reversed') and len(e.args) == 1 \
+                    and not e.keywords:
+                a = e.args[0]
+                if isinstance(a, ast.GeneratorExp):
+                    if len(a.generators) == 1 and not a.generators[0].ifs:
+                        return self._truth(self._seq(a.generators[0].iter),
+                                           vals)
+                    return None
+                return self._truth(a, vals)
+            return self._opaque(e)
+        if isinstance(e, ast.BinOp) and isinstance(e.op, ast.Mod) and \
+                isinstance(e.left, ast.Constant) and \
+                isinstance(e.left.value, str):
+            if re.sub(r'%[-#0 +]*\d*(?:\.\d+)?[a-zA-Z]', '',
+                      e.left.value.replace('%%', 'x')):
+                return ('c', True)
+            return None
+        if isinstance(e, ast.Compare) and len(e.ops) == 1:
+            return self._compare(e, vals)
+        if isinstance(e, (ast.Attribute, ast.Subscript)):
+            return self._opaque(e)
+        return None
+
+    def _seq(self, it):
+        if isinstance(it, ast.Call) and dotted(it.func) in \
+                ('enumerate', 'sorted', 'reversed', 'list') and it.args:
+            return it.args[0]
+        return it
+
+    def _opaque(self, e):
+        t = unparse(e)
+        return ('a', self._key(('e', t), [e], t), True)
+
+    def _compare(self, e, vals):
+        L, R, op = e.left, e.comparators[0], type(e.ops[0])
+        pol = True
+        if op in (ast.NotEq, ast.IsNot, ast.NotIn):
+            pol = False
+            op = {ast.NotEq: ast.Eq, ast.IsNot: ast.Is, ast.NotIn: ast.In}[op]
+        lt, ln = self._sym(L, vals)
+        rt, rn = self._sym(R, vals)
+        li, ri = self._int(L), self._int(R)
+        if op in (ast.Eq, ast.Is):
+            if isinstance(R, ast.Constant) and R.value is None:
+                r = self._truth(L, vals)
+                if r is not None and r[0] == 'c' and r[1]:
+                    return ('c', not pol)           # a true value is not None
+            for x, xi, y in ((L, li, R), (R, ri, L)):
+                if xi == 0 and self._slots_len(y, vals, {}):
+                    return ('a', self._key(_SLOTS, [], "task['slots']"),
+                            not pol)
+            if li is not None and ri is not None:
+                return ('c', (li == ri) == pol)
+            if lt == rt:
+                return ('c', pol)
+            a, b = sorted([lt, rt])
+            sym = '==' if op is ast.Eq else 'is'
+            return ('a', self._key(('cmp', a, sym, b), [L, R],
+                                   '%s %s %s' % (lt, sym, rt), ln | rn), pol)
+        if op is ast.In:
+            return ('a', self._key(('cmp', lt, 'in', rt), [L, R],
+                                   '%s in %s' % (lt, rt), ln | rn), pol)
+        if op not in (ast.Gt, ast.GtE, ast.Lt, ast.LtE):
+            return None
+        # everything as  X > Y  with a polarity
+        if op is ast.Gt:
+            X, Y = L, R
+        elif op is ast.Lt:
+            X, Y = R, L
+        elif op is ast.GtE:                        # L >= R == not (R > L)
+            X, Y, pol = R, L, not pol
+        else:                                      # L <= R == not (L > R)
+            X, Y, pol = L, R, not pol
+        xi, yi = self._int(X), self._int(Y)
+        if xi is not None and yi is not None:
+            return ('c', (xi > yi) == pol)
+        if xi is not None:                         # c > Y == not (Y > c - 1)
+            X, Y, xi, yi, pol = Y, X, None, xi - 1, not pol
+        xt, xn = self._sym(X, vals)
+        if yi is not None:
+            if self._slots_len(X, vals, {}):
+                if yi < 0:
+                    return ('c', pol)
+                if yi == 0:
+                    return ('a', self._key(_SLOTS, [], "task['slots']"), pol)
+            return ('a', self._key(('cmp', xt, '>', yi), [X],
+                                   '%s > %d' % (xt, yi), xn), pol)
+        yt, yn = self._sym(Y, vals)
+        return ('a', self._key(('cmp', xt, '>', yt), [X, Y],
+                               '%s > %s' % (xt, yt), xn | yn), pol)
+
+    # -- transfer ----------------------------------------------------------------
+    @staticmethod
+    def _pack(atoms, vals, taint, carried, iterated, ret):
+        return (frozenset(atoms.items()), frozenset(vals.items()),
+                frozenset(taint), carried, frozenset(iterated), ret)
+
+    def _assume(self, e, want, atoms, vals, record):
+        """False if `e` cannot have the truth value `want` in this state"""
+        r = self.truth(e, vals, atoms)
+        if r is None:
+            return True
+        if r[0] == 'c':
+            return r[1] == want
+        if record:
+            atoms[r[1]] = (r[2] == want)
+        return True
+
+    def _assume_tree(self, e, want, atoms, vals):
+        """assert-style: record what follows for certain"""
+        if isinstance(e, ast.BoolOp):
+            if isinstance(e.op, ast.And) == want:
+                return all(self._assume_tree(v, want, atoms, vals)
+                           for v in e.values)
+            return True
+        if isinstance(e, ast.UnaryOp) and isinstance(e.op, ast.Not):
+            return self._assume_tree(e.operand, not want, atoms, vals)
+        return self._assume(e, want, atoms, vals, True)
+
+    def _kill(self, name, atoms, vals):
+        for k in [k for k in atoms if name in self.key_names.get(k, ())]:
+            del atoms[k]
+        for v in [v for v, x in vals.items() if v == name or name in x[2]]:
+            del vals[v]
+
+    def _bind(self, name, value, atoms, vals):
+        """truth / symbol of a local after `name = value`"""
+        self._kill(name, atoms, vals)
+        if name not in self.rel_names or value is None:
+            return
+        r = self._truth(value, vals)
+        if r is not None and r[0] == 'a' and name in self.key_names[r[1]]:
+            r = None
+        sym, names = None, frozenset()
+        v = value
+        if isinstance(v, ast.Call) and isinstance(v.func, ast.Name) and \
+                v.func.id == 'len' and len(v.args) == 1 and \
+                isinstance(v.args[0], ast.Name):
+            sym, names = unparse(v), frozenset([v.args[0].id])
+        elif isinstance(v, ast.Name) and v.id in self.locals:
+            sym, names = self._sym(v, vals)
+            names = frozenset(names) | {v.id}
+        elif isinstance(v, ast.Constant) and v.value is None:
+            sym = 'None'
+        if name in names:
+            sym, names = None, frozenset()
+        if r is None and sym is None:
+            return
+        if r is None:
+            r = ('a', self._key(('e', name), [ast.Name(id=name,
+                                                        ctx=ast.Load())],
+                                name), True)
+        vals[name] = (r, sym, names)
+
+    def transfer(self, node, edge, st):
+        if edge.label == 'exc':
+            return None
+        atoms, vals, taint = dict(st[0]), dict(st[1]), set(st[2])
+        carried, iterated, ret = st[3], set(st[4]), st[5]
+        s = node.ast
+        if node.kind == 'test':
+            want = edge.label == 'T'
+            if not self._assume(s, want, atoms, vals,
+                                id(s) in self.rel_ids):
+                return None
+            own = self.owner.get(id(s))
+            if own is not None and not carried:
+                # what follows a decision taken on the identity of a node
+                # depends on the placement: a comparison of a node name /
+                # index always, any other test on such a value when it
+                # decides about an exit
+                rd = self._test_reads(s)
+                if self._tainted(rd, taint) and (
+                        isinstance(s, ast.Compare) or any(
+                            isinstance(m, _EXITS) for m in walk(own))):
+                    carried = True
+            return self._pack(atoms, vals, taint, carried, iterated, ret)
+        i = self.info.get(node.id)
+        if i is None:
+            return st
+        if node.kind == 'for':
+            it = self._seq(s.iter)
+            if edge.label == 'iter':
+                if not self._assume(it, True, atoms, vals, True):
+                    return None
+                iterated.add(node.id)
+            elif edge.label == 'done':
+                if node.id in iterated:
+                    iterated.discard(node.id)
+                    return self._pack(atoms, vals, taint, carried, iterated,
+                                      ret)
+                if not self._assume(it, False, atoms, vals, True):
+                    return None
+                return self._pack(atoms, vals, taint, carried, iterated, ret)
+        if isinstance(s, ast.Assert):
+            if not self._assume_tree(s.test, True, atoms, vals):
+                return None
+            return self._pack(atoms, vals, taint, carried, iterated, ret)
+        ctl = self._tainted(i['ctl'], taint)
+        new = {}
+        for t, rd in i['writes'].items():
+            new[t] = ctl or self._tainted(rd, taint)
+        for t, v in new.items():
+            if v:
+                taint.add(t)
+            elif t in i['strong']:
+                taint.discard(t)
+        if (i['file'] and self._tainted(i['file'], taint)) or \
+                i['helper_file']:
+            carried = True
+        if i['ret'] is not None:
+            ret = self._tainted(i['ret'], taint)
+        # truth of locals
+        if isinstance(s, ast.Assign) and len(s.targets) == 1 and \
+                isinstance(s.targets[0], ast.Name):
+            self._bind(s.targets[0].id, s.value, atoms, vals)
+        else:
+            # x.append(..), x[k] = .., x += .., for x in ..: x is or becomes
+            # something else - forget what was known about it
+            for t in set(i['writes']) | i['strong']:
+                self._kill(t, atoms, vals)
+        return self._pack(atoms, vals, taint, carried, iterated, ret)
+
+    def _test_reads(self, s):
+        k = id(s)
+        memo = self.__dict__.setdefault('_tr', {})
+        if k not in memo:
+            memo[k] = self.G.deps[self.w].reads(_pruned(s))
+        return memo[k]
+
+    # -- result -----------------------------------------------------------------
+    def run(self):
+        g = self.g
+        init = self._pack({}, {}, set(), False, set(), None)
+        ex = Exploration(g, g.entry.id, init, self.transfer,
+                         max_states=self.MAX_STATES)
+        carrying, bare = [], []
+        for t in ex.terminals:
+            if t.node != g.exit.id:
+                continue
+            atoms = dict(t.state[0])
+            if t.state[5] is None:
+                continue                     # falls off the end: no command
+            if t.state[5] or t.state[3]:
+                carrying.append(atoms)
+            elif atoms.get(_SLOTS) is not False:
+                bare.append((atoms, t))
+        return ex, carrying, bare
+
+    def config_of(self, atoms):
+        return {k: v for k, v in atoms.items() if self.key_config.get(k)}
+
+    def lit(self, k, v):
+        t = self.key_text.get(k, str(k))
+        return t if v else 'not (%s)' % t
+
+
+def r09_16(prog, rep, classes, rid='R09.16', minimum=8):
+    rep.rule(rid, 'within one configuration of a launcher the node names / '
+             'indices of the placement reach the command (or a file written '
+             'for it) on every path of get_launch_cmds on which they reach it '
+             'on some path, unless the task has no placement (path-wise form '
+             'of R09.2)', minimum=minimum)
+    for K in classes:
+        f = prog.find_method(K, 'get_launch_cmds')
+        if f is None or always_raises(f) or passes_through(f, exec_param(f)):
+            continue
+        G = graph(prog, K, ['get_launch_cmds'])
+        if not G.marks(G.closure([('RET', f.where), ('FILE', '')]),
+                       ('place',)):
+            continue                           # R09.2 reports it
+        rep.saw(f)
+        pp = PathPlacement(prog, K, f)
+        try:
+            ex, carrying, bare = pp.run()
+        except RuntimeError:
+            rep.stat('R09.16 not decided (too many paths)', K.name)
+            continue
+        rep.stat('R09.16 path states', ex.states)
+        bad = None
+        for atoms, t in bare:
+            ca = pp.config_of(atoms)
+            for q in carrying:
+                cq = pp.config_of(q)
+                if all(cq[k] == v for k, v in ca.items() if k in cq):
+                    diff = [pp.lit(k, v) for k, v in sorted(
+                        atoms.items(), key=lambda kv: str(kv[0]))
+                        if not pp.key_config.get(k) and k != _SLOTS and
+                        q.get(k) != v]
+                    cand = (len(diff), diff, [pp.lit(k, v) for k, v in sorted(
+                        ca.items(), key=lambda kv: str(kv[0]))])
+                    if bad is None or cand[0] < bad[0] or (
+                            cand[0] == bad[0] and len(cand[2]) < len(bad[2])):
+                        bad = cand
+        if bad is None:
+            rep.ok(rid, f, '%s: %d paths end with the node identity in the '
+                   'command or its file, %d without - none of these in a '
+                   'configuration which has the former'
+                   % (K.name, len(carrying), len(bare)), f.loc())
+            continue
+        _, diff, conf = bad
+        rep.bad(rid, f, '%s:placement-on-every-path' % K.name,
+                '%s.get_launch_cmds names the nodes of the placement for some '
+                'tasks and for others not, in the same configuration of the '
+                'launcher%s: there is a path to the return on which neither '
+                'the command nor a file written for it receives a node name / '
+                'index of task[\'slots\'] although the task is placed%s - the '
+                'launcher then starts the ranks on nodes of its own choice'
+                % (K.name,
+                   ' (%s)' % ', '.join(conf) if conf else '',
+                   '; it is taken when ' + ' and '.join(diff) if diff else ''),
+                f.loc(),
+                history='launcher configured with %s; task placed on its '
+                'nodes with %s: the command carries the counts but no node, '
+                'the ranks start elsewhere while the reserved nodes idle'
+                % (', '.join(conf) or 'any configuration',
+                   ' and '.join(diff) or 'any placement'))
+
+
+# ------------------------------------------------------------------------------
 #
 def run(prog, rep, tier):
     rep.decided = ('launcher purity: no attribute of the launcher object that '
@@ -4736,11 +5408,18 @@ def run(prog, rep, tier):
         'computed from the whole of a container that the same loop fills '
         'and that is defined outside of it; for `x = cfg.get(k[, C])` '
         'followed by a re-definition of x under a test on x alone, the '
-        'value for the absent option (None / C) takes the re-defining edge.')
+        'value for the absent option (None / C) takes the re-defining edge; '
+        'path-wise (k=1 loops, conditions compared as canonical atoms, '
+        'integer thresholds folded): no path of get_launch_cmds of a placed '
+        'task ends without a node name / index in the command or a file '
+        'written on the path while another path of the same launcher '
+        'configuration ends with one.')
     rep.undecided = ('option semantics of each MPI flavour (whether -host, '
         '-rf, --nodelist, ERF syntax do what the placement says), may-depend '
         'only: a launcher which names the nodes on one of its branches passes '
-        '(JSRUN names nodes only in ERF mode, Srun only the node set); '
+        '(JSRUN names nodes only in ERF mode, Srun only the node set) - '
+        'R09.16 decides the paths of one configuration only, a mode of a '
+        'launcher which never names a node is not reported; '
         'core / GPU pinning; whether a de-duplicated node list plus a total '
         'rank count (Srun) is distributed as placed; writes of find_launcher '
         'into attributes of the launcher objects themselves (R09.1 covers '
@@ -4776,6 +5455,11 @@ def run(prog, rep, tier):
         'installed radical.utils; sep is rendered between host and count',
         'dict.get(k) yields None and dict.get(k, C) yields C for an absent '
         'key; str.lower / upper / casefold as in the standard library',
+        'R09.16: a condition which reads only attributes of the launcher '
+        'and constants is configuration (fixed per launcher); two conditions '
+        'are the same when their operands read the same (a local bound to '
+        'len(x) reads as len(x)); exception edges are not followed; a helper '
+        'which may write a node name into a file is taken to do so',
     ]
     classes = factory_classes(prog)
     rep.stat('factory classes', len(classes))
@@ -4799,6 +5483,7 @@ def run(prog, rep, tier):
     rep.attempt(r09_13, prog, rep, classes)
     rep.attempt(r09_14, prog, rep, classes)
     rep.attempt(r09_15, prog, rep, classes)
+    rep.attempt(r09_16, prog, rep, classes)
     if tier == 'thorough':
         base = prog.cls(*LM_BASE)
         extra = [k for k in prog.subclasses(base, strict=True)
@@ -5360,6 +6045,67 @@ SILENT += [
         (_JS, _JS_HEAD, "        base_id = 0\n        for rs_idx, slot_ranks in enumerate(slots):\n\n            ranks_per_rs  = len(slots[rs_idx]['cores'])\n")]),
     dict(name='jsrun: rank count of the first slot, every other slot asserted to agree', edits=[
         (_JS, _JS_HEAD, "        base_id       = 0\n        ranks_per_rs  = len(slots[0]['cores'])\n        for slot_ranks in slots:\n\n            assert len(slot_ranks['cores']) == ranks_per_rs, 'inhomog. RS'\n")]),
+]
+
+
+# ------------------------------------------------------------------------------
+# round 6: R09.16 (seed C09-i1 and the same slip at sibling launch methods)
+#
+_SR       = _L + 'srun.py'
+_SR_ELIF  = "        elif nodelist:\n            mapping += ' --nodelist=%s' % ','.join(nodelist)\n"
+_SR_BOTH  = "        if nodefile:\n            mapping += ' --nodefile=%s' % nodefile\n\n" + _SR_ELIF
+_SR_FILE  = ("            if self._vmajor > MIN_VSLURM_IN_LIST:\n"
+             "                if n_nodes > MIN_NNODES_IN_LIST:\n"
+             "                    nodefile = '%s/%s.nodes' % (sbox, uid)\n"
+             "                    with ru.ru_open(nodefile, 'w') as fout:\n"
+             "                        fout.write(','.join(nodelist) + '\\n')\n")
+_SR_WRITE = ("                    nodefile = '%s/%s.nodes' % (sbox, uid)\n"
+             "                    with ru.ru_open(nodefile, 'w') as fout:\n"
+             "                        fout.write(','.join(nodelist) + '\\n')\n")
+_MPI_ELSE = "        else:\n            # Construct the hosts_string ('h1,h2,..,hN')\n            if self._mpt: mpt_hosts_string"
+
+MUTATIONS += [
+    dict(name='R09.16 srun: node list only for short lists, node file only on new slurm (seed C09-i1)', rules=('R09.16',), edits=[
+        (_SR, "        elif nodelist:\n", "        elif nodelist and n_nodes <= MIN_NNODES_IN_LIST:\n")]),
+    dict(name='R09.16 srun: the same as a nested negated test', rules=('R09.16',), edits=[
+        (_SR, _SR_ELIF, "        elif nodelist:\n            if not n_nodes > MIN_NNODES_IN_LIST:\n                mapping += ' --nodelist=%s' % ','.join(nodelist)\n")]),
+    dict(name='R09.16 srun: node list only on new slurm', rules=('R09.16',), edits=[
+        (_SR, "        elif nodelist:\n", "        elif nodelist and self._vmajor > MIN_VSLURM_IN_LIST:\n")]),
+    dict(name='R09.16 srun: node file named whenever slurm is new, written only for long lists', rules=('R09.16',), edits=[
+        (_SR, _SR_FILE, "            if self._vmajor > MIN_VSLURM_IN_LIST:\n                nodefile = '%s/%s.nodes' % (sbox, uid)\n                if n_nodes > MIN_NNODES_IN_LIST:\n                    with ru.ru_open(nodefile, 'w') as fout:\n                        fout.write(','.join(nodelist) + '\\n')\n")]),
+    dict(name='R09.16 srun: node list below the threshold only (gap at the threshold on old slurm)', rules=('R09.16',), edits=[
+        (_SR, "        elif nodelist:\n", "        elif nodelist and len(nodelist) < MIN_NNODES_IN_LIST:\n")]),
+    dict(name='R09.16 prte: single rank tasks get no --host', rules=('R09.16',), edits=[
+        (_L + 'prte.py', "        if not slots:\n            # this task is unscheduled", "        if not slots or len(slots) == 1:\n            # this task is unscheduled")]),
+    dict(name='R09.16 mpirun: host list for fewer than 42 ranks, host file for more (none for 42)', rules=('R09.16',), edits=[
+        (_L + 'mpirun.py', _MPI_ELSE, _MPI_ELSE.replace('        else:\n', '        elif len(host_list) < 42:\n'))]),
+    dict(name='R09.16 mpirun_mpt: hosts only named for more than one rank', rules=('R09.16',), edits=[
+        (_L + 'mpirun.py', "            if self._mpt: mpt_hosts_string = '%s'       % ','.join(host_list)\n", "            if self._mpt and len(host_list) > 1: mpt_hosts_string = '%s'       % ','.join(host_list)\n            elif self._mpt: pass\n")]),
+    dict(name='R09.16 ssh: fast path returns the bare script for plain single rank tasks', rules=('R09.16',), edits=[
+        (_L + 'ssh.py', "        host = slots[0]['node_name']\n", "        if task['description'].get('ranks', 1) == 1 and not task['description'].get('use_mpi'):\n            return exec_path\n        host = slots[0]['node_name']\n")]),
+]
+
+SILENT += [
+    dict(name='srun: node list unless the node file was written, spelled by its two conditions', edits=[
+        (_SR, "        elif nodelist:\n", "        elif nodelist and (n_nodes <= MIN_NNODES_IN_LIST or self._vmajor <= MIN_VSLURM_IN_LIST):\n")]),
+    dict(name='srun: elif as else / nested if', edits=[
+        (_SR, _SR_ELIF, "        else:\n            if nodelist:\n                mapping += ' --nodelist=%s' % ','.join(nodelist)\n")]),
+    dict(name='srun: node list tested through its length', edits=[
+        (_SR, "        elif nodelist:\n", "        elif n_nodes and slots:\n")]),
+    dict(name='srun: node file condition hoisted into a local', edits=[
+        (_SR, _SR_FILE, "            use_file = self._vmajor > MIN_VSLURM_IN_LIST and n_nodes > MIN_NNODES_IN_LIST\n            if use_file:\n" + _SR_WRITE)]),
+    dict(name='srun: node file condition as one test, thresholds by value', edits=[
+        (_SR, _SR_FILE, "            if self._vmajor >= MIN_VSLURM_IN_LIST + 1 and len(nodelist) >= 43:\n" + _SR_WRITE)]),
+    dict(name='srun: node file tested with `is not None`', edits=[
+        (_SR, "        if nodefile:\n            mapping += ' --nodefile=%s' % nodefile\n", "        if nodefile is not None:\n            mapping += ' --nodefile=%s' % nodefile\n")]),
+    dict(name='srun: node list branch first', edits=[
+        (_SR, _SR_BOTH, "        if nodelist and not nodefile:\n            mapping += ' --nodelist=%s' % ','.join(nodelist)\n        elif nodefile:\n            mapping += ' --nodefile=%s' % nodefile\n")]),
+    dict(name='srun: node option collected in a local', edits=[
+        (_SR, _SR_BOTH, "        where = ''\n        if nodefile:\n            where = ' --nodefile=%s' % nodefile\n        elif len(nodelist) > 0:\n            where = ' --nodelist=%s' % ','.join(nodelist)\n        mapping += where\n")]),
+    dict(name='prte: unscheduled case as a positive test', edits=[
+        (_L + 'prte.py', "        if not slots:\n            # this task is unscheduled - we leave it to PRRTE/PMI-X\n            # to correctly place the task\n            pass\n        else:\n", "        if slots:\n")]),
+    dict(name='mpirun: else of the host file threshold as its complement', edits=[
+        (_L + 'mpirun.py', _MPI_ELSE, _MPI_ELSE.replace('        else:\n', '        elif len(host_list) < 43:\n'))]),
 ]
 
 
